@@ -162,6 +162,7 @@ struct GenOpts {
                                    ///< within a fraction of epsilon of a line: the builder's convex hulls then keep (almost) every point
     bool hull_stress = false;      ///< segmentation engines: 1 array in 40 (size hint >= 60): 66000..136000 keys in strictly convex / concave position inside ONE
                                    ///< epsilon band and (mostly) one chunk, so that a hull of the builder reaches the 2^16 entries its vector was created with
+    bool hull_stress_often = false; ///< C17 (few cases per run): 1 large array in 4 instead of 1 in 40
     bool pow2_sizes = false;       ///< 1 array in 30 has exactly 2^k - 1, 2^k or 2^k + 1 keys, k = 10..19 (block-wise copy / chunk arithmetic edges)
     bool mixed_runs = false;       ///< Compressed: about 1 case in 250: >= 10^5 three-key segments followed by thousands of long linear runs (one long
                                    ///< segment each): the intercepts' bitvector gets sparse stretches after a dense prefix (select long superblocks)
@@ -278,7 +279,7 @@ std::vector<K> gen_keys(TapeReader &t, const GenOpts &o, KeyMeta &meta) {
     }
 
     // ---- "hull_stress" class: every point is a vertex of one of the builder's two hulls, and one segment holds more than 2^16 of them
-    if (o.hull_stress && !o.xkeys && sizeof(K) == 8 && !std::is_floating_point_v<K> && o.size_hint >= 60 && t.chance(1, 40)) {
+    if (o.hull_stress && !o.xkeys && sizeof(K) == 8 && !std::is_floating_point_v<K> && o.size_hint >= 60 && t.chance(1, o.hull_stress_often ? 4 : 40)) {
         const size_t n = 66000 + t.below(70000);
         const unsigned fam = (unsigned) t.below(4); // gap_j = A +- floor(B * f(j)), f = sqrt(j) | j | log2(1+j) | j^2/n
         const bool shrinking = t.chance(1, 2);
